@@ -178,25 +178,40 @@ def sortEdges (es : List Edge) : List Edge := es.foldl (fun acc e => insertEdge 
 /-- `calcCuts`. -/
 def calcCuts (ls : List (List Seg)) : List Edge := sortEdges (rawEdges ls)
 
+/-- `anyInfinite(segmentSlices)`: some list has a segment without a length (`Duration(slice...)`
+reports `infinite`). -/
+def anyInfinite (ls : List (List Seg)) : Bool := ls.any (fun l => (duration l).2)
+
+/-- The rule of `Sum` for its open last element, as a predicate on that element's magnitude: it is
+dropped iff `last.Magnitude == 0 || !anyInfinite(segmentSlices)`. -/
+def dropRule (inf : Bool) (m : Int) : Bool := decide (m = 0) || !inf
+
+/-- The rule before the `fix:` commit 5957697 (`last.Magnitude <= 0`), kept for the record:
+`PropsSeg.C18_sum_legacy_fails`. -/
+def dropRuleLegacy (m : Int) : Bool := decide (m ≤ 0)
+
 /-- The main loop of `Sum` followed by its final trimming.  Loop invariant of the Go code: every
 element of `result` but the last is final, and the last one has `Length == nil`; so the state is the
 magnitude `mag` of that open last element plus `lastTime`, and completed elements are emitted.
 `length == 0` adds to the open element; otherwise the open element is closed with `length` and a
-new one is opened.  At the end the open element is dropped when `Magnitude <= 0`. -/
-def emit : Int → Int → List Edge → List Seg
-  | mag, _, [] => if mag ≤ 0 then [] else [⟨mag, none⟩]
+new one is opened.  At the end the open element is dropped when `drop` says so. -/
+def emit (drop : Int → Bool) : Int → Int → List Edge → List Seg
+  | mag, _, [] => if drop mag then [] else [⟨mag, none⟩]
   | mag, lastTime, e :: es =>
-    if e.time - lastTime = 0 then emit (mag + e.delta) lastTime es
-    else ⟨mag, some (e.time - lastTime)⟩ :: emit (mag + e.delta) e.time es
+    if e.time - lastTime = 0 then emit drop (mag + e.delta) lastTime es
+    else ⟨mag, some (e.time - lastTime)⟩ :: emit drop (mag + e.delta) e.time es
 
 /-- `Sum` applied to already computed cuts: with no cuts `result` stays `nil`; otherwise the first
 iteration appends the zero segment and the loop proceeds as `emit` from `(0, 0)`. -/
-def sumEdges : List Edge → List Seg
+def sumEdges (drop : Int → Bool) : List Edge → List Seg
   | [] => []
-  | e :: es => emit 0 0 (e :: es)
+  | e :: es => emit drop 0 0 (e :: es)
 
 /-- `Sum(segmentSlices...)`. -/
-def sum (ls : List (List Seg)) : List Seg := sumEdges (calcCuts ls)
+def sum (ls : List (List Seg)) : List Seg := sumEdges (dropRule (anyInfinite ls)) (calcCuts ls)
+
+/-- `Sum` as it was before the fix. -/
+def sumLegacy (ls : List (List Seg)) : List Seg := sumEdges dropRuleLegacy (calcCuts ls)
 
 /-! ### `Sum`, literally
 
@@ -217,10 +232,10 @@ def lastMagOf (result : List Seg) : Int :=
   | some last => last.mag
   | none => 0
 
-/-- The trimming after the loop: drop the last element if it has no length and magnitude `<= 0`. -/
-def trimLast (result : List Seg) : List Seg :=
+/-- The trimming after the loop: drop the last element if it has no length and the rule says so. -/
+def trimLast (drop : Int → Bool) (result : List Seg) : List Seg :=
   match result.getLast? with
-  | some last => if last.len = none ∧ last.mag ≤ 0 then result.dropLast else result
+  | some last => if last.len = none ∧ drop last.mag = true then result.dropLast else result
   | none => result
 
 /-- One iteration of `for _, cut := range cuts` on the state `(result, lastTime)`. -/
@@ -234,10 +249,10 @@ def sumGoStep (st : List Seg × Int) (c : Edge) : List Seg × Int :=
     (updLast (fun s => ⟨s.mag, some length⟩) result ++ [⟨lastMag + c.delta, none⟩], c.time)
 
 /-- The whole of `Sum` after `calcCuts`: the loop, then the trimming of the last element. -/
-def sumGoEdges (cuts : List Edge) : List Seg :=
-  trimLast (cuts.foldl sumGoStep ([], 0)).1
+def sumGoEdges (drop : Int → Bool) (cuts : List Edge) : List Seg :=
+  trimLast drop (cuts.foldl sumGoStep ([], 0)).1
 
-def sumGo (ls : List (List Seg)) : List Seg := sumGoEdges (calcCuts ls)
+def sumGo (ls : List (List Seg)) : List Seg := sumGoEdges (dropRule (anyInfinite ls)) (calcCuts ls)
 
 /-! ## Specification: a segment list as a step function of time -/
 
